@@ -35,9 +35,12 @@ def classify(spec: G.ModelSpec, exprs, obj, err: BaseException | None, d: str | 
     return "?"
 
 
+CATS = G.CATS_ALL + ["special"]
+
+
 @harness("c18.eval")
 def h_eval(ch: Chooser, vec: list, maxf: int, free_values: bool = True):
-    spec = G.model_from_vector(vec, maxf)
+    spec = G.model_from_vector(vec, maxf, CATS)
     model = G.Model(spec)
     try:
         exprs = pick_instance(ch, spec, free_values)
@@ -67,7 +70,7 @@ def run(tier: str, seed: int) -> int:
     t0 = time.time()
     th = tier == "thorough"
     maxf, dm, dv = (3, 4, 2) if th else (2, 3, 2)
-    vecs = G.enumerate_models(dm, maxf)
+    vecs = G.enumerate_models(dm, maxf, CATS)
     tasks = []
     for v in vecs:
         tasks.append(("c18.eval", dict(vec=v, maxf=maxf, free_values=True), 0, ()))
